@@ -133,36 +133,7 @@ func runC04(r *R) {
 	}
 
 	// ---- R3
-	r.Rule("C04-R3", "UnixVolume.Touch: success only via os.Chtimes(blockPath(loc), now, now) performed under flock on a descriptor opened on the same path; not when ReadOnly", 1)
-	if fn := r.NeedFn("C04-R3", uvT+".Touch"); fn != nil {
-		chs := CallsIn(fn, "os.Chtimes")
-		for _, ch := range chs {
-			a := ch.Common().Args
-			pc := Canon(a[0])
-			lock, _ := lockfileOn(fn, pc)
-			ok := pc == bpLoc && lock != nil && isTimeNow(a[1]) && isTimeNow(a[2])
-			if ok {
-				g, _ := Guard(fn, lock.(ssa.Instruction), ch.(ssa.Instruction), ErrNilC(lock))
-				ok = g && Precedes(lock, ch) && flockHeldAt(fn, lock, ch.(ssa.Instruction))
-			}
-			gro, _ := Guard(fn, nil, ch.(ssa.Instruction), FalseC("ReadOnly", FieldVP("sdk/go/arvados.Volume", "ReadOnly", nil)))
-			r.Check(ok && gro, "C04-R3", fn, "os.Chtimes(p, now, now)", ch.Pos(), "by path, under flock(OpenFile(p)), time.Now()", "timestamp update is not by-path under the file lock with the current time")
-		}
-		for _, ret := range Returns(fn) {
-			if !MaybeSuccess(fn, ret) {
-				continue
-			}
-			// error operand must be the result of the Chtimes call
-			ok := true
-			for _, v := range returnOperand(ret, ret.Results[0]) {
-				c, _ := ResultOf(v)
-				if c == nil || CalleeName(c.Common()) != "os.Chtimes" || Canon(c.Call.Args[0]) != bpLoc {
-					ok = false
-				}
-			}
-			r.Check(ok, "C04-R3", fn, "return (maybe nil)", ret.Pos(), "success is exactly os.Chtimes(blockPath(loc))'s result", "Touch can report success without a by-path Chtimes of the block (a renamed/unlinked inode would be touched silently)")
-		}
-	}
+	touchRule(r, "C04-R3")
 
 	// ---- R4
 	r.Rule("C04-R4", "TrashItem: Volume.Trash only when NOT age(request mtime)<TTL, stored Mtime == requested BlockMtime (same volume, err nil), BlobTrash on; Lookup(uuid, needWrite=true)", 1)
@@ -388,4 +359,41 @@ func boolS(b bool) string {
 		return "ok"
 	}
 	return "MISSING"
+}
+
+// touchRule (C04-R3, C02-R8): UnixVolume.Touch succeeds only through a by-path Chtimes of the block under the file lock.
+// For C02 the same shape is what makes "PUT of an already stored block is acknowledged" mean "the block is still at its
+// path": a timestamp set through a descriptor would succeed on a file that a concurrent Trash has already unlinked.
+func touchRule(r *R, rule string) {
+	r.Rule(rule, "UnixVolume.Touch: success only via os.Chtimes(blockPath(loc), now, now) performed under flock on a descriptor opened on the same path; not when ReadOnly", 1)
+	if fn := r.NeedFn(rule, uvT+".Touch"); fn != nil {
+		chs := CallsIn(fn, "os.Chtimes")
+		for _, ch := range chs {
+			a := ch.Common().Args
+			pc := Canon(a[0])
+			lock, _ := lockfileOn(fn, pc)
+			ok := pc == bpLoc && lock != nil && isTimeNow(a[1]) && isTimeNow(a[2])
+			if ok {
+				g, _ := Guard(fn, lock.(ssa.Instruction), ch.(ssa.Instruction), ErrNilC(lock))
+				ok = g && Precedes(lock, ch) && flockHeldAt(fn, lock, ch.(ssa.Instruction))
+			}
+			gro, _ := Guard(fn, nil, ch.(ssa.Instruction), FalseC("ReadOnly", FieldVP("sdk/go/arvados.Volume", "ReadOnly", nil)))
+			r.Check(ok && gro, rule, fn, "os.Chtimes(p, now, now)", ch.Pos(), "by path, under flock(OpenFile(p)), time.Now()", "timestamp update is not by-path under the file lock with the current time")
+		}
+		for _, ret := range Returns(fn) {
+			if !MaybeSuccess(fn, ret) {
+				continue
+			}
+			// error operand must be the result of the Chtimes call
+			ok := true
+			for _, v := range returnOperand(ret, ret.Results[0]) {
+				c, _ := ResultOf(v)
+				if c == nil || CalleeName(c.Common()) != "os.Chtimes" || Canon(c.Call.Args[0]) != bpLoc {
+					ok = false
+				}
+			}
+			r.Check(ok, rule, fn, "return (maybe nil)", ret.Pos(), "success is exactly os.Chtimes(blockPath(loc))'s result", "Touch can report success without a by-path Chtimes of the block (a renamed/unlinked inode would be touched silently)")
+		}
+	}
+
 }
